@@ -111,6 +111,9 @@ def gen_goal_cond(ch, gfl):
             return ch.choice(GOAL_NUMBERS)
         return [ch.choice(["+", "-", "*", "/"]), expr(d - 1), expr(d - 1)]
     op = ch.choice([">", ">=", "<", "<=", "="])
+    if op != "=" and ch.flag(0.12):
+        # written with the number first: (<= 2 (fuel t2)); the bound is one the init values hit (0, 1, 2, 10, 0.5)
+        return [op, ch.choice(["0", "1", "2", "10", "0.5", "-1"]), list(ch.choice(gfl))]
     lhs = list(ch.choice(gfl)) if (op == "=" or ch.flag(0.6)) else expr(1)
     if isinstance(lhs, str):
         lhs = list(ch.choice(gfl))
